@@ -234,7 +234,7 @@ func renderNoP(b *emitter, e *Expr, c ctx) {
 			b.num(strconv.Itoa(-e.I))
 			b.p(")")
 		} else {
-			b.num(strconv.Itoa(e.I))
+			b.num(strings.Repeat("0", e.Z) + strconv.Itoa(e.I))
 		}
 	case KFloat:
 		if e.F < 0 {
